@@ -172,11 +172,16 @@ fn expected_frames(w: &Wav, spec: &WavSpec) -> Vec<Frame> {
 /// boundaries.
 /// Returns the output frames, the first decoder error, and for every seek whether the decoder
 /// thread had already ended when the seek was issued.
-fn stream_all(data: StreamingSoundData<FromFileError>, rate: u32, max: usize, seeks: &[(usize, f64)]) -> Result<(Vec<Frame>, Option<String>, Vec<bool>), Failure> {
+fn stream_all(data: StreamingSoundData<FromFileError>, rate: u32, max: usize, seeks: &[(usize, f64)]) -> Result<(Vec<Frame>, Option<String>, Vec<(bool, u64)>), Failure> {
 	streamctl::install();
 	streamctl::set_callback_active(false);
 	let mark = streamctl::mark();
-	let (mut sound, mut handle): (Box<dyn Sound>, StreamingSoundHandle<FromFileError>) = match data.into_sound() {
+	// the decoder thread takes its first step only after the commands of chunk 0 are written
+	// (otherwise where a seek "before the first callback" lands in the stream is a race)
+	streamctl::set_default_budget(Some(0));
+	let made = data.into_sound();
+	streamctl::set_default_budget(None);
+	let (mut sound, mut handle): (Box<dyn Sound>, StreamingSoundHandle<FromFileError>) = match made {
 		Ok(x) => x,
 		Err(e) => return Ok((vec![], Some(format!("{e:?}")), vec![])),
 	};
@@ -187,14 +192,18 @@ fn stream_all(data: StreamingSoundData<FromFileError>, rate: u32, max: usize, se
 	let mut out = vec![];
 	let chunk = 512;
 	let mut k = 0;
-	let mut seek_marks: Vec<bool> = vec![];
+	let mut seek_marks: Vec<(bool, u64)> = vec![];
 	let mut idle = 0;
 	while out.len() < max {
 		for (at, pos) in seeks {
 			if *at == k {
-				seek_marks.push(streamctl::state(id).ended);
+				let st = streamctl::state(id);
+				seek_marks.push((st.ended, st.pushed));
 				handle.seek_to(*pos);
 			}
+		}
+		if k == 0 {
+			streamctl::set_budget(id, None);
 		}
 		// the decoder keeps ahead: wait until it has filled its ring, ended, or reported an error
 		let before = streamctl::state(id);
@@ -443,9 +452,16 @@ impl Property for C18 {
 					}
 					// the last seek is never superseded: playback must end up at its target
 					if let Some(last) = targets.last() {
-						let took_effect = jumps.iter().any(|(_, _, to)| to == last) || first_index == Some(*last);
+						// (a seek whose target happens to be the very frame the decoder would have delivered
+						// next leaves no discontinuity: the ring holds `pushed` frames - one of them the
+						// pre-seeded silent one - when the command is written)
+						let invisible = marks.last().map(|(_, pushed)| {
+							let next_out = (*pushed as usize).saturating_sub(1);
+							(next_out.saturating_sub(2)..=next_out + 2).any(|i| i > 0 && out.get(i).and_then(&decode_index) == Some(*last) && out.get(i - 1).and_then(&decode_index) == Some(last.wrapping_sub(1)))
+						}).unwrap_or(false);
+						let took_effect = jumps.iter().any(|(_, _, to)| to == last) || first_index == Some(*last) || invisible;
 						if !took_effect {
-							let sig = if marks.last() == Some(&true) { "streaming-seek-takes-effect:decoder-already-finished" } else { "streaming-seek-takes-effect" };
+							let sig = if marks.last().map(|m| m.0) == Some(true) { "streaming-seek-takes-effect:decoder-already-finished" } else { "streaming-seek-takes-effect" };
 							return Err(Failure::new("streaming-seek-takes-effect", sig, format!("seek_to(file frame {last}) never took effect: the only jumps in the output are {jumps:?}; {spec:?} seeks {seeks:?}")));
 						}
 					}
